@@ -158,7 +158,26 @@ func corruptOnce(t *rapid.T, c interface{}) (interface{}, string) {
 }
 
 var hostilePointers = []string{"", "/", "//", "/o", "/o/y", "/o/y/0", "/o/y/-", "/o/y/-1", "/o/y/2", "/o/y/99999999999999999999", "/o/y/01", "/o/y/1e0", "/o/y/+1",
-	"/arr/-", "/arr/-1", "/arr/3", "/arr/2/in", "/arr/2/in/x", "/o/~", "/o/~2", "/~0", "/~1", "/o/y/", "/alsoKnownAs/0", "/alsoKnownAs/-1", "o/y", "#/o", "/o/y/0/0/0", "/missing/x"}
+	"/arr/-", "/arr/-1", "/arr/3", "/arr/2", "/arr/2/new", "/arr/0", "/o/new", "/o/y/0", "/arr/2/in", "/arr/2/in/x", "/o/~", "/o/~2", "/~0", "/~1", "/o/y/", "/alsoKnownAs/0", "/alsoKnownAs/-1", "o/y", "#/o", "/o/y/0/0/0", "/missing/x"}
+
+// respellIndices writes numeric reference tokens in ways some readers take for the same index (leading zeros, a sign).
+func respellIndices(t *rapid.T, ptr, label string) string {
+	toks := strings.Split(ptr, "/")
+	for i, tok := range toks {
+		if tok == "" || strings.Trim(tok, "0123456789") != "" {
+			continue
+		}
+		switch rapid.IntRange(0, 5).Draw(t, label+"-respell") {
+		case 0:
+			toks[i] = "0" + tok
+		case 1:
+			toks[i] = "+" + tok
+		case 2:
+			toks[i] = "00" + tok
+		}
+	}
+	return strings.Join(toks, "/")
+}
 
 func genHostileIetfPatch(t *rapid.T) map[string]interface{} {
 	n := rapid.IntRange(1, 4).Draw(t, "nops")
@@ -174,8 +193,16 @@ func genHostileIetfPatch(t *rapid.T) map[string]interface{} {
 			case 1:
 				return float64(1)
 			default:
-				return rapid.SampledFrom(hostilePointers).Draw(t, l)
+				return respellIndices(t, rapid.SampledFrom(hostilePointers).Draw(t, l), l)
 			}
+		}
+		if (kind == "move" || kind == "copy") && rapid.IntRange(0, 2).Draw(t, "intoOwnSource") == 0 {
+			// a pointer into its own source: 'from' names a container (in any spelling of its indices), 'path' a location inside it
+			c := rapid.SampledFrom([]string{"/arr/2", "/o/y", "/o", "/arr", "/alsoKnownAs", ""}).Draw(t, "container")
+			op["from"] = respellIndices(t, c, "selfFrom")
+			op["path"] = c + "/" + rapid.SampledFrom([]string{"new", "0", "-", "in", "y", "1", "y/0"}).Draw(t, "child")
+			ops = append(ops, op)
+			continue
 		}
 		if rapid.IntRange(0, 9).Draw(t, "hasPath") > 0 {
 			op["path"] = ptr("path")
@@ -213,7 +240,7 @@ func TestC19_Corruptions(t *testing.T) {
 	check(t, "C19", 3000, func(t *rapid.T) {
 		p := wideProtocol()
 		kind := rapid.SampledFrom([]string{"request-outer", "request-inner-delta", "request-inner-signed", "request-header", "request-unexpected-type",
-			"patch", "patch-sequence", "ietf-hostile", "did", "did-string", "jws-jwk", "bytes"}).Draw(t, "target")
+			"patch", "patch-sequence", "history", "ietf-hostile", "did", "did-string", "jws-jwk", "bytes"}).Draw(t, "target")
 		nontrivial := false
 		desc := kind
 		switch kind {
@@ -349,6 +376,55 @@ func TestC19_Corruptions(t *testing.T) {
 			runEntry(t, st, "Apply", []byte(refJCS(map[string]interface{}{"type": "update", "request": string(up.bytes())})), kind)
 			nontrivial = true
 			desc = kind + refJCS(list)
+		case "history":
+			// a valid create and valid successors whose free-form members (anchor origin, suffix type, patch values) have every
+			// JSON shape: state left by one operation meets the values of the next
+			shape := func(l string) interface{} {
+				switch rapid.IntRange(0, 3).Draw(t, l) {
+				case 0:
+					return genOrigin(t)
+				case 1:
+					return genHostileValue(t)
+				default:
+					return rapid.SampledFrom([]interface{}{map[string]interface{}{"a": []interface{}{float64(1)}}, []interface{}{map[string]interface{}{}}, float64(7), true, "s", nil}).Draw(t, l+"-v")
+				}
+			}
+			rec, upd := genKey(t, "rec"), genKey(t, "upd")
+			if rec.Commitment(18) == upd.Commitment(18) {
+				upd = otherKey(t, rec)
+			}
+			aka := func(u string) []interface{} {
+				return []interface{}{map[string]interface{}{"action": "add-also-known-as", "uris": []interface{}{u}}}
+			}
+			cr := newCreate(18, rec, upd, aka("https://h.example/0"), shape("createOrigin"), "")
+			suffix := cr.suffixFor(18)
+			ops := []interface{}{map[string]interface{}{"type": "create", "request": string(cr.bytes())}}
+			for i, n := 0, rapid.IntRange(1, 3).Draw(t, "successors"); i < n; i++ {
+				switch rapid.SampledFrom([]string{"recover", "recover", "update", "deactivate"}).Draw(t, "successor") {
+				case "recover":
+					nr, nu := otherKey(t, rec), otherKey(t, upd)
+					if nr.Commitment(18) == nu.Commitment(18) {
+						continue
+					}
+					b := newRecover(18, suffix, rec, nr, nu, aka(fmt.Sprintf("https://h.example/%d", i+1)), shape("recoverOrigin"), 0, 0)
+					ops = append(ops, map[string]interface{}{"type": "recover", "request": string(b.bytes())})
+					rec, upd = nr, nu
+				case "update":
+					nu := otherKey(t, upd)
+					b := newUpdate(18, suffix, upd, nu, aka(fmt.Sprintf("https://h.example/%d", i+1)), 0, 0)
+					if rapid.IntRange(0, 3).Draw(t, "updateWithoutDelta") == 0 {
+						delete(b.Req, "delta") // the signed data still names the hash of the delta that is not there
+					}
+					ops = append(ops, map[string]interface{}{"type": "update", "request": string(b.bytes())})
+					upd = nu
+				default:
+					b := newDeactivate(18, suffix, rec, 0, 0)
+					ops = append(ops, map[string]interface{}{"type": "deactivate", "request": string(b.bytes())})
+				}
+			}
+			runEntry(t, st, "ApplyHistory", []byte(refJCS(map[string]interface{}{"suffix": suffix, "ops": ops})), kind)
+			nontrivial = len(ops) > 1
+			desc = kind + fmt.Sprint(len(ops))
 		case "ietf-hostile":
 			pv := genHostileIetfPatch(t)
 			raw := []byte(refJCS(pv))
